@@ -7,7 +7,7 @@ cd "$(dirname "$0")/.."
 SEEDS=${@:-$(ls seeded)}
 git -C $REPO diff --quiet || { echo "$REPO has local changes"; exit 2; }
 for s in $SEEDS; do
-  P=seeded/$s/patch.diff
+  P=$(pwd)/seeded/$s/patch.diff
   [ -f $P ] || continue
   prop=$(python3 -c "import json;print(json.load(open('seeded/$s/meta.json'))['property'])")
   git -C $REPO apply $P || { echo "seed=$s patch does not apply"; continue; }
